@@ -43,7 +43,7 @@ META = {
                     "no aliasing, reserved loop counters, boolean conditions); ill-defined runs are discarded",
                     "numpy/CPython arithmetic is the trusted base for value equality"],
     "probes": ["step_failed", "step_switched", "step_raised", "zero_trip_loop", "else_taken",
-               "failed_then_completed", "op_after_raise", "t_end_stop", "cap_abandon"],
+               "failed_then_completed", "op_after_raise", "t_end_stop", "cap_abandon", "second_instance"],
  },
  "C11": {
     "level": "fault_enumeration",
@@ -499,7 +499,51 @@ def run_c01(ctx):
     outcomes = []
     total_steps = 0
     raised_before = False
+    # other stepper instances of the same description live in the same process (their own function
+    # tables, their own state): they must not influence the instances under observation
+    decoy_state = {"active": False}
+
+    def decoy_funcs():
+        def mk(fn):
+            impl = sc.func_impl(fn)
+
+            def f(*a, **k):
+                if not decoy_state["active"]:
+                    raise Violation("instance-interference", "a function given to another stepper instance "
+                                    "(%s) was called by the instance under observation" % fn, site="functions")
+                return impl(*a, **k)
+            return f
+        return {fn: mk(fn) for fn in sc.funcs}
+
+    def make_decoys():
+        ctx.count("probe:second_instance")
+        made = [InterpBackend(b.code_sim, decoy_funcs()), GenBackend(b.cls, b.nmgr, decoy_funcs())]
+        step = tape.chance(0.5, "decoy_step")
+        for d in made:
+            try:
+                decoy_state["active"] = True
+                # (same initial state as the observed instances: its first step is known to be well defined
+                # once the reference has taken it)
+                d.set_up(sc.t0, sc.dt0, sc.state0)
+                if step and total_steps >= 1:
+                    try:
+                        for _ev in d.obj.run_single_step():
+                            pass
+                    except Violation:
+                        raise
+                    except Exception as e:      # FailStep / Transition / StepError of the decoy's own step
+                        if type(e).__name__ == "RunTimeout":
+                            raise
+            finally:
+                decoy_state["active"] = False
+    with tape.span("decoy0"):
+        if tape.chance(0.2, "decoy"):
+            make_decoys()
     for oi, op in enumerate(history):
+        if oi:
+            with tape.span("decoy"):
+                if tape.chance(0.15, "decoy"):
+                    make_decoys()
         exp_events, bounds, end, t_end = ref_run_op(ref, op, event_cap=48)
         for bd in bounds:
             o = bd[3]
